@@ -13,6 +13,7 @@ import (
 )
 
 type vf34Sid struct {
+	Panic bool   `json:"panic,omitempty"`
 	Err   bool   `json:"err"`
 	Mode  string `json:"mode"`
 	Path  string `json:"path"`
@@ -23,7 +24,11 @@ type vf34Sid struct {
 
 func vf34Parse(raw string) vf34Sid {
 	var sid streamID
-	if err := sid.unmarshal(raw); err != nil {
+	var err error
+	if panicked, _ := verifrt.Catch(func() { err = sid.unmarshal(raw) }); panicked {
+		return vf34Sid{Panic: true, Err: true}
+	}
+	if err != nil {
 		return vf34Sid{Err: true}
 	}
 	mode := "read"
